@@ -256,6 +256,10 @@ class Net:
         return n
 
     def advance(self, dt):
+        if dt % 15:
+            # clock values must stay exact binary fractions of a second (1/1024 s = 15 ticks): off the grid the float
+            # comparisons of the implementation and the integer comparisons of the model differ at equality boundaries
+            raise RuntimeError("netsim clock step %r is not a multiple of 15 ticks" % (dt,))
         self.t += dt
         S.CLOCK.t = self.t
 
